@@ -155,6 +155,27 @@ def _close(a, b, rtol=RTOL):
     return bool(np.allclose(a[~na], b[~nb], rtol=rtol, atol=1e-300))
 
 
+def _var_noise(var, scale):
+    """How far the reported variance may move under another floating-point summation order.  `var`
+    is the variance of marginals of magnitude `scale`; every marginal carries a rounding error of a
+    few units in the last place of `scale` (64 ulp allowed here), so var moves by at most
+    2*sqrt(var)*d + d*d with d = 64 * scale * 2**-52.  Negligible (1e-15) for ordinary counts; it
+    matters for counts of 1e7 and more, where a tolerance of 1e-5 on the variance asks the marginals
+    to agree to eleven digits (false alarm met in the thorough tier, DESIGN 7.4)."""
+    var = np.nan_to_num(np.abs(np.asarray(var, dtype=float)))
+    d = 64.0 * np.nan_to_num(np.abs(np.asarray(scale, dtype=float))) * 2.0 ** -52
+    return 2.0 * np.sqrt(var) * d + d * d
+
+
+def _var_close(a, b, scale, rtol=1e-6):
+    a = np.asarray(a, dtype=float)
+    b = np.asarray(b, dtype=float)
+    if a.shape != b.shape or not np.array_equal(np.isnan(a), np.isnan(b)):
+        return False
+    a0, b0 = np.nan_to_num(a), np.nan_to_num(b)
+    return bool(np.all(np.abs(a0 - b0) <= rtol * np.abs(b0) + 1e-18 + _var_noise(b0, scale)))
+
+
 def _kw(opts):
     kw = dict(cis_only=opts.get("cis_only", False), trans_only=opts.get("trans_only", False),
               ignore_diags=opts.get("ignore_diags", 2), mad_max=opts.get("mad_max", 5),
@@ -313,8 +334,9 @@ def _op_balance(self, op):
             try:
                 d_bias, d_scale, d_var = dense_reference(coll, dict(opts))
                 ok = _close(ref_bias, d_bias) and _close(ref_stats["scale"], d_scale) and \
-                    (_close(ref_stats["var"], d_var, 1e-6) or np.allclose(np.nan_to_num(np.asarray(ref_stats["var"], dtype=float)),
-                                                                         np.nan_to_num(np.asarray(d_var, dtype=float)), rtol=1e-6, atol=1e-18))
+                    (_close(ref_stats["var"], d_var, 1e-6) or _var_close(ref_stats["var"], d_var, ref_stats["scale"]) or
+                     np.allclose(np.nan_to_num(np.asarray(ref_stats["var"], dtype=float)),
+                                 np.nan_to_num(np.asarray(d_var, dtype=float)), rtol=1e-6, atol=1e-18))
                 if not ok:
                     has_diag = bool((coll.pixels["bin1_id"].values == coll.pixels["bin2_id"].values).any())
                     tagd = " [ignore_diags=0 with a non-zero main diagonal]" if (not opts.get("ignore_diags") and has_diag) else ""
@@ -352,7 +374,8 @@ def _op_balance(self, op):
                 tol = opts.get("tol", 1e-5)
                 a = vars_[kdiv] if kdiv >= 0 else np.nan
                 b = ref_vars[kdiv] if kdiv >= 0 else np.nan
-                if kdiv >= 0 and abs(a - tol) <= 1e-9 * tol and abs(b - tol) <= 1e-9 * tol:
+                edge = 1e-9 * tol + float(np.max(_var_noise(tol, ref_stats["scale"])))
+                if kdiv >= 0 and abs(a - tol) <= edge and abs(b - tol) <= edge:
                     self.stat("knife-edge-skipped")
                     continue
                 errs.append(("O-iterations", label + "stopped after %d sweeps, the unchunked sequential run after %d "
@@ -370,8 +393,11 @@ def _op_balance(self, op):
             for key in ("scale", "var"):
                 a = np.asarray(stats[key], dtype=float)
                 b = np.asarray(ref_stats[key], dtype=float)
+                if key == "var" and _var_close(a, b, ref_stats["scale"]):
+                    continue
                 if not (_close(a, b, 1e-6) or np.allclose(np.nan_to_num(a), np.nan_to_num(b), rtol=1e-6, atol=1e-18)):
-                    errs.append(("O-stats", label + "%s %r vs %r" % (key, stats[key], ref_stats[key])))
+                    errs.append(("O-stats", label + "%s %r vs %r (scale %r)" % (key, stats[key], ref_stats[key],
+                                                                                   ref_stats["scale"])))
             if not np.array_equal(np.asarray(stats["converged"]), np.asarray(ref_stats["converged"])):
                 errs.append(("O-stats", label + "converged %r vs %r" % (stats["converged"], ref_stats["converged"])))
             # ---- repeated run, same configuration and same schedule: bitwise identical
